@@ -230,13 +230,18 @@ def bindsPk (tables : List TableInfo) (m : Method) : Bool :=
 
 /-! ### `open()`: schema script and version row -/
 
-/-- statements of the schema script as classified by the translator -/
+/-- statements of the schema / upgrade scripts as classified by the translator -/
 inductive SchemaStmt
   | createTable (tid : Nat)      -- CREATE TABLE IF NOT EXISTS <record table>
   | createOption                 -- CREATE TABLE IF NOT EXISTS option
   | deleteVersion                -- DELETE FROM option WHERE key = 'database_version'
-  | insertVersion                -- INSERT INTO option … 'database_version'   (IntegrityError if the row exists)
-  | upsertVersion                -- INSERT OR REPLACE INTO option … 'database_version'
+  | insertVersion (n : Nat)      -- INSERT INTO option … 'database_version', '<n>'   (IntegrityError if the row exists)
+  | upsertVersion (n : Nat)      -- INSERT OR REPLACE INTO option … 'database_version', '<n>'
+  | setVersion (n : Nat)         -- UPDATE option SET value='<n>' WHERE key='database_version'
+  | alterAddCol                  -- ALTER TABLE <record table> ADD <column>     (OperationalError if the column exists)
+  | fillCol                      -- UPDATE <record table> SET <column>=…
+  | begin                        -- BEGIN   (executescript honours explicit transactions)
+  | commit                       -- COMMIT
   | other
   deriving DecidableEq, Repr
 
@@ -245,77 +250,108 @@ inductive ExcKind
   | operationalError | stopIteration | other
   deriving DecidableEq, Repr
 
+/-- what of a database file matters to `open()` -/
 structure OpenSt where
   tables : List Nat := []     -- created record tables
   option : Bool := false      -- the `option` table exists
   version : Bool := false     -- the `database_version` row exists
+  ver : Nat := 0              -- its value (meaningful when `version`)
+  col : Bool := true          -- the record table has the column the upgrade adds
   deriving DecidableEq, Repr
 
-/-- one statement of the schema script; `none` = the statement raises (no such table / duplicate key) -/
+/-- one statement; `none` = the statement raises (no such table / duplicate key / duplicate column) -/
 def schemaStep (s : OpenSt) : SchemaStmt → Option OpenSt
   | .createTable t => some (if s.tables.contains t then s else { s with tables := s.tables ++ [t] })
   | .createOption => some { s with option := true }
   | .deleteVersion => if s.option then some { s with version := false } else none
-  | .insertVersion => if s.option && !s.version then some { s with version := true } else none
-  | .upsertVersion => if s.option then some { s with version := true } else none
+  | .insertVersion n => if s.option && !s.version then some { s with version := true, ver := n } else none
+  | .upsertVersion n => if s.option then some { s with version := true, ver := n } else none
+  | .setVersion n => if s.option then some (if s.version then { s with ver := n } else s) else none
+  | .alterAddCol => if s.col then none else some { s with col := true }
+  | .fillCol => if s.col then some s else none
+  | .begin => some s
+  | .commit => some s
   | .other => some s
 
-/-- run a list of statements; each commits on its own (`executescript`), so the state reached survives a raise.
-    Result: the state reached and whether a statement raised. -/
-def runList : List SchemaStmt → OpenSt → OpenSt × Bool
-  | [], s => (s, false)
-  | st :: rest, s =>
-    match schemaStep s st with
-    | some s' => runList rest s'
-    | none => (s, true)
+/-- the file (`committed`) and the connection's view (`working`) while a script runs -/
+structure RunSt where
+  committed : OpenSt
+  working : OpenSt
+  inTx : Bool := false
+  deriving DecidableEq, Repr
+
+/-- run statements under `executescript`: outside BEGIN…COMMIT every statement commits on its own; a raise leaves the
+    file as committed so far.  Result: the run state and whether a statement raised. -/
+def runTx : List SchemaStmt → RunSt → RunSt × Bool
+  | [], r => (r, false)
+  | .begin :: rest, r => runTx rest { r with inTx := true, working := r.committed }
+  | .commit :: rest, r => runTx rest { committed := r.working, working := r.working, inTx := false }
+  | st :: rest, r =>
+    match schemaStep r.working st with
+    | none => (r, true)
+    | some w => if r.inTx then runTx rest { r with working := w }
+                else runTx rest { committed := w, working := w, inTx := false }
+
+/-- how a class opens its file (generated): handlers around the version read, latest version, the upgrade script of
+    each older version, the schema script -/
+structure OpenCfg where
+  handlers : List ExcKind
+  latest : Nat
+  upgrades : List (Nat × List SchemaStmt)
+  script : List SchemaStmt
+  deriving DecidableEq, Repr
 
 /-- `_prepare_version`: with an `option` table but no version row, `next()` on the empty result raises
     StopIteration; it is survived only if the handler list covers it -/
 def versionReadOk (handlers : List ExcKind) (s : OpenSt) : Bool :=
   !s.option || s.version || handlers.contains .stopIteration
 
-/-- file state after an `open()` that is killed after `n` statements of the script (or raises before) -/
-def openKilled (handlers : List ExcKind) (script : List SchemaStmt) (n : Nat) (s : OpenSt) : OpenSt :=
-  if versionReadOk handlers s then (runList (script.take n) s).1 else s
+/-- `check_database`: the statements `open()` runs on file state `s`: the upgrade scripts from the stored version
+    (0 / missing = latest) up to the latest one, then the schema script -/
+def openStmts (cfg : OpenCfg) (s : OpenSt) : List SchemaStmt :=
+  let v := if s.option && s.version && s.ver != 0 then s.ver else cfg.latest
+  ((cfg.upgrades.filter (fun u => v ≤ u.1 && u.1 < cfg.latest)).map (·.2)).flatten ++ cfg.script
+
+def fresh (s : OpenSt) : RunSt := { committed := s, working := s }
+
+/-- file state after an `open()` that is killed after `n` statements (or raises before): what was committed -/
+def openKilled (cfg : OpenCfg) (n : Nat) (s : OpenSt) : OpenSt :=
+  if versionReadOk cfg.handlers s then (runTx ((openStmts cfg s).take n) (fresh s)).1.committed else s
 
 /-- a complete `open()` on file state `s` raises nothing -/
-def openOk (handlers : List ExcKind) (script : List SchemaStmt) (s : OpenSt) : Bool :=
-  versionReadOk handlers s && !(runList script s).2
+def openOk (cfg : OpenCfg) (s : OpenSt) : Bool :=
+  versionReadOk cfg.handlers s && !(runTx (openStmts cfg s) (fresh s)).2
 
 /-- file state after a complete `open()` -/
-def openEnd (script : List SchemaStmt) (s : OpenSt) : OpenSt := (runList script s).1
+def openEnd (cfg : OpenCfg) (s : OpenSt) : OpenSt := (runTx (openStmts cfg s) (fresh s)).1.committed
 
-/-! the same on the two flags only (finite: used to decide the generated scripts for every start state) -/
-
-def flagStep (f : Bool × Bool) : SchemaStmt → Option (Bool × Bool)
-  | .createTable _ => some f
-  | .createOption => some (true, f.2)
-  | .deleteVersion => if f.1 then some (f.1, false) else none
-  | .insertVersion => if f.1 && !f.2 then some (f.1, true) else none
-  | .upsertVersion => if f.1 then some (f.1, true) else none
-  | .other => some f
-
-def runFlags : List SchemaStmt → Bool × Bool → (Bool × Bool) × Bool
-  | [], f => (f, false)
-  | st :: rest, f =>
-    match flagStep f st with
-    | some f' => runFlags rest f'
-    | none => (f, true)
-
-def flagReadOk (handlers : List ExcKind) (f : Bool × Bool) : Bool :=
-  !f.1 || f.2 || handlers.contains .stopIteration
+def OpenSt.flags (s : OpenSt) : OpenSt := { s with tables := [] }
 
 def prefixes {α : Type} : List α → List (List α)
   | [] => [[]]
   | a :: l => [] :: (prefixes l).map (a :: ·)
 
-/-- decidable summary of "open is safe" on flags: from each of the four flag states, after a kill behind any prefix
-    of the script (or no progress because the read raised), a complete open succeeds and ends with both flags set -/
-def flagsSafe (handlers : List ExcKind) (script : List SchemaStmt) : Bool :=
-  [(false, false), (false, true), (true, false), (true, true)].all fun f =>
-    (prefixes script).all fun p =>
-      let f1 := if flagReadOk handlers f then (runFlags p f).1 else f
-      flagReadOk handlers f1 && !(runFlags script f1).2 && (runFlags script f1).1 == (true, true)
+/-- all table-free file states with a version value up to `maxVer` -/
+def flagStates (maxVer : Nat) : List OpenSt :=
+  [false, true].flatMap fun o => [false, true].flatMap fun v => [false, true].flatMap fun c =>
+    (List.range (maxVer + 1)).map fun n => { tables := [], option := o, version := v, ver := n, col := c }
+
+/-- a file lacks the column a newer version adds exactly when its version row says it is older (what every release
+    writes; a kill must not lead out of it — the pre-f3c7ff7 upgrade did) -/
+def consistent (cfg : OpenCfg) (s : OpenSt) : Bool :=
+  (!s.version || s.option) &&        -- a version row lives in the option table
+  (s.col != (s.option && s.version && decide (0 < s.ver) && decide (s.ver < cfg.latest)))
+
+/-- decidable summary of "open is safe" on the table-free states: from each, after a kill behind any prefix of the
+    statements that open() runs there, a complete open raises nothing and ends with option table, version row of the
+    latest version and the added column -/
+def flagsSafe (cfg : OpenCfg) (maxVer : Nat) : Bool :=
+  (flagStates maxVer).all fun f => !consistent cfg f ||
+    (prefixes (openStmts cfg f)).all fun p =>
+      let f1 := if versionReadOk cfg.handlers f then (runTx p (fresh f)).1.committed else f
+      openOk cfg f1 &&
+        (let e := openEnd cfg f1
+         e.option && e.version && e.ver == cfg.latest && e.col)
 
 /-! ### reload path: `PseudonymManager.__init__` rebuilds the token tree from the stored rows -/
 
